@@ -259,6 +259,8 @@ class ScriptedSim(mosaik_api_v3.Simulator):
         otime = None
         if beh.get("p_future", 0.0) and rng.random() < beh["p_future"]:
             otime = time + rng.randrange(1 + beh.get("horizon", 2))
+        if beh.get("const_future"):
+            otime = time + beh["const_future"]      # every output (persistent ones too) is valid from time + d on
         if beh.get("future_at_k") is not None and k == beh["future_at_k"]:
             otime = time + 1          # leave the same-time loop by announcing the output for the next time
         flt = self._reply_fault("step")
